@@ -40,7 +40,7 @@ def cases(tier, seed):
         out.append({"h": "H03a", "dec": "entry", "n": n})
     for n in range(0, (11 if tier == "thorough" else 9)):
         out.append({"h": "H03a", "dec": "option", "n": n, "_w": 2 + 4 ** max(0, n - 6)})
-    for ty, size in ((1, 8), (2, 5), (2, 6), (4, 9), (4, 10), (6, 21), (0x14, 9), (0x16, 21), (0x24, 8), (0x26, 21)):
+    for ty, size in ((1, 7 if tier == "thorough" else 6), (2, 5), (2, 6), (4, 9), (4, 10), (6, 21), (0x14, 9), (0x16, 21), (0x24, 8), (0x26, 21)):
         out.append({"h": "H03a", "dec": "option-typed", "type": ty, "size": size, "_w": 2})
     for variant in (0, 1, 2):
         base = template_sd(variant)
@@ -49,6 +49,24 @@ def cases(tier, seed):
     base = template_someip(0)
     for spec in mutation_specs(28, tier):  # the SOME/IP header and the start of the SD payload
         out.append({"h": "H03t", "layer": "someip", "variant": 0, **spec})
+    # live endpoints
+    for variant, dgram in ((0, "single"), (2, "single"), (1, "pair")):
+        n = len(template_someip(variant))
+        for spec in mutation_specs(n, tier, stride_big=8):
+            if tier == "quick" and spec["m"] in ("insert", "dup") and spec["pos"] % 4:
+                continue
+            # the deep option/entry decoders are covered by H03a/H03t; here wide windows
+            # only over the SOME/IP header and the SD header (message filtering, lengths)
+            if spec["m"] == "window" and spec["w"] > 2 and spec["pos"] >= 28:
+                continue
+            if spec["m"] == "window" and spec["w"] == 2 and spec["pos"] >= 28 and tier == "quick":
+                continue
+            if tier == "quick" and dgram == "pair" and spec["m"] != "window":
+                continue
+            out.append({"h": "H03b", "dgram": dgram, "variant": variant, "_w": 3, **spec})
+    for variant in (0, 1, 2):
+        for spec in mutation_specs(20, tier):
+            out.append({"h": "H03s", "variant": variant, **spec})
     return out
 
 
@@ -153,3 +171,169 @@ def h03t(E, M, case):
 
 
 SCENARIOS = {"H03a": h03a, "H03t": h03t}
+
+
+# ---------------------------------------------------------------------------------- H03b
+def _endpoint(E, M, loop):
+    """a started discovery endpoint with listeners, one announced instance, one learnt
+    offer and one accepted subscription (both from Q)"""
+    sd, cfg = M.sd, M.config
+    tm = sd.Timings(INITIAL_DELAY_MIN=0, INITIAL_DELAY_MAX=0, REPETITIONS_MAX=0, CYCLIC_OFFER_DELAY=0, SEND_COLLECTION_TIMEOUT=0, ANNOUNCE_TTL=0xFFFFFF)
+    prot = sd.ServiceDiscoveryProtocol(MC, timings=tm)
+    tr = RecTransport(loop)
+    prot.transport = tr
+    log = []
+
+    class CL(sd.ClientServiceListener):
+        def service_offered(self, service, source):
+            log.append(("offered", service.service_id, service.instance_id, source))
+
+        def service_stopped(self, service, source):
+            log.append(("stopped", service.service_id, service.instance_id, source))
+
+    class SL(sd.ServerServiceListener):
+        def client_subscribed(self, sub, source):
+            log.append(("subscribed", sub.id, sub.counter, source))
+
+        def client_unsubscribed(self, sub, source):
+            log.append(("unsubscribed", sub.id, sub.counter, source))
+
+    prot.discovery.watch_all_services(CL())
+    inst = sd.ServiceInstance(cfg.Service(0x1234, 1, 1, 7, eventgroups=frozenset({5})), SL(), prot.announcer, tm)
+    loop.call(prot.announcer.announce_service, inst)
+    loop.call(prot.start)
+    loop.settle()
+    ep = wire.sd_option_bytes(wire.OPT_V4_ENDPOINT, wire.ip_option_data([192, 0, 2, 2], 17, 4000))
+    offer = wire.sd_entry_bytes(wire.T_OFFER, 0, 0, 0, 0, 0x7777, 1, 1, 0xFFFFFF, 0)
+    sub = wire.sd_entry_bytes(wire.T_SUBSCRIBE, 0, 0, 1, 0, 0x1234, 1, 1, 0xFFFFFF, wire.eventgroup_word(0, 5))
+    loop.deliver(1, lambda: prot.datagram_received(bytes(wire.sd_message(1, 0xC0, [offer, sub], [ep])), Q, False), may_defer=False)
+    loop.settle()
+    return prot, inst, tr, log
+
+
+def _state(prot, inst):
+    found = sorted((repr(a), s.service_id, s.instance_id) for a, d in prot.discovery.found_services.store.items() for s in d)
+    subs = sorted((repr(a), s.id, s.counter) for a, d in inst.subscriptions.store.items() for s in d)
+    return found, subs
+
+
+def _expected_datagram(E, raw):
+    """the datagram with every message removed that is not a decodable SD notification;
+    messages whose unicast flag is clear keep their header and flags but lose their entries"""
+    out = []
+    kept = 0
+    b = list(raw)
+    while b:
+        try:
+            f, b = wire.parse_someip(b)
+        except wire.WireError:
+            break
+        if not (f["service"] == wire.SD_SERVICE and f["method"] == wire.SD_METHOD and f["iface"] == 1 and f["mtype"] == wire.MT_NOTIFICATION and f["rcode"] == 0):
+            continue
+        verdict, sd, nonascii, text = classify_sd(E, f["payload"])
+        if verdict != "ok" or text:
+            continue
+        kept += 1
+        if sd["unicast"] == 0:
+            out += wire.someip_bytes(f["service"], f["method"], f["client"], f["session"], 1, 2, 0, wire.sd_payload(sd["flags"], [], []))
+        else:
+            out += wire.someip_bytes(f["service"], f["method"], f["client"], f["session"], 1, 2, 0, f["payload"])
+    return out, kept
+
+
+def _datagram(case):
+    if case["dgram"] == "single":
+        return template_someip(case["variant"])
+    if case["dgram"] == "pair":
+        # a valid notification preceded by the message under mutation
+        ok = wire.sd_message(9, 0xC0, [wire.sd_entry_bytes(wire.T_OFFER, 0, 0, 0, 0, 0x5555, 1, 1, 3, 0)], [])
+        return template_someip(case["variant"]) + ok
+    raise KeyError(case["dgram"])
+
+
+def h03b(E, M, case):
+    loop = new_loop(E)
+    stub_uniform(E, M)
+    a, ainst, atr, alog = _endpoint(E, M, loop)
+    b, binst, btr, blog = _endpoint(E, M, loop)
+    raw = mutate(E, _datagram(case), case)
+    expect, kept = _expected_datagram(E, raw)
+    mc = E.flag("multicast")
+    sender = P if case.get("sender", "P") == "P" else Q
+    n_a, n_b = len(atr.sent), len(btr.sent)
+    la, lb = len(alog), len(blog)
+    escaped = []
+
+    def feed(prot, data):
+        try:
+            prot.datagram_received(mk(E, data), sender, mc)
+        except Exception as exc:  # noqa: BLE001 - the receive path must not raise
+            escaped.append(repr(exc))
+
+    loop.deliver(5, lambda: feed(a, raw), may_defer=False)
+    loop.settle()
+    E.require(not escaped, "the receive path returns without raising whatever the bytes are", {"escaped": escaped})
+    loop.deliver(5, lambda: feed(b, expect), may_defer=False)
+    loop.settle()
+    loop_clean(E, loop)
+    E.reach("h03b.accepted" if kept else "h03b.rejected")
+    E.observe([kept, alog[la:], len(atr.sent) - n_a])
+    E.require(alog[la:] == blog[lb:], "a message that is not a decodable SD notification causes no listener callback (twin run without it sees the same callbacks)", {"with": [list(map(str, x)) for x in alog[la:]], "without": [list(map(str, x)) for x in blog[lb:]]})
+    sa = [(x[2], mk(E, list(x[1]))) for x in atr.sent[n_a:]]
+    sb = [(x[2], mk(E, list(x[1]))) for x in btr.sent[n_b:]]
+    E.require(len(sa) == len(sb) and all(x[0] == y[0] for x, y in zip(sa, sb)), "a rejected message causes no transmission", {"with": len(sa), "without": len(sb)})
+    E.require(E.And(*[E.eq(x[1], y[1]) for x, y in zip(sa, sb)]), "transmissions equal those of the twin run")
+    E.require(_state(a, ainst) == _state(b, binst), "discovery and subscription state equal those of the twin run", {"with": _state(a, ainst), "without": _state(b, binst)})
+    ia, ib = a.session_storage.incoming, b.session_storage.incoming
+    E.require(sorted(map(repr, ia)) == sorted(map(repr, ib)), "session memory has the same keys as in the twin run", {"with": sorted(map(repr, ia)), "without": sorted(map(repr, ib))})
+    for k in ia:
+        if k in ib:
+            E.require(E.And(E.eq(ia[k][0], ib[k][0]), E.eq(ia[k][1], ib[k][1])), "session memory equals the twin run's")
+    E.require(dict(a.session_storage.outgoing) == dict(b.session_storage.outgoing), "outgoing session counters equal the twin run's")
+
+
+def h03s(E, M, case):
+    """service endpoint: nothing escapes; an undecodable first message is not answered"""
+
+    class Svc(M.service.SimpleService):
+        service_id = 0x4321
+        version_major = 2
+        version_minor = 0
+
+    svc = Svc(7)
+    tr = RecTransport()
+    svc.transport = tr
+    calls = []
+    svc.register_method(0x10, lambda m, a: (calls.append(0x10), b"ok")[1])
+    svc.register_method(0x11, lambda m, a: calls.append(0x11))
+
+    def bad(m, a):
+        calls.append(0x12)
+        raise M.service.MalformedMessageError("bad")
+
+    svc.register_method(0x12, bad)
+    if E.symbolic:
+        from symx.symbytes import ScanDict
+
+        svc.methods = ScanDict(svc.methods)
+    base = wire.someip_bytes(0x4321, [0x10, 0x11, 0x12][case["variant"]], 3, 4, 2, 0, 0, [1, 2, 3, 4])
+    raw = mutate(E, base, case)
+    escaped = []
+    try:
+        svc.datagram_received(mk(E, raw), P, E.flag("multicast"))
+    except Exception as exc:  # noqa: BLE001
+        escaped.append(repr(exc))
+    E.observe([len(tr.sent), list(calls)])
+    E.require(not escaped, "the service endpoint's receive path returns without raising whatever the bytes are", {"escaped": escaped})
+    try:
+        wire.parse_someip(raw)
+        first_ok = True
+    except wire.WireError:
+        first_ok = False
+    E.reach("h03s.decodable" if first_ok else "h03s.undecodable")
+    if not first_ok:
+        E.require(not tr.sent and not calls, "an undecodable message is neither answered nor dispatched")
+
+
+SCENARIOS.update({"H03b": h03b, "H03s": h03s})
+REACH["H03s"] = ["h03s.decodable", "h03s.undecodable"]
